@@ -690,6 +690,7 @@ def plan(tier, seed):
         chunks.append({'kind': 'hist', 'hists': hists[i:i + per]})
     chunks.append({'kind': 'bfs', 'depth': 3 if tier == 'quick' else 5})
     chunks.append({'kind': 'apirepeat'})
+    chunks.append({'kind': 'volume'})
     disc_pool, cont_pool = concat_pool()
     for op_i in range(len(CONCAT_OPS)):
         chunks.append({'kind': 'concat', 'op': op_i})
@@ -705,7 +706,7 @@ def plan(tier, seed):
                 '(2) BFS over hidden states (mechanical snapshot of all module-level objects, function attributes, '
                 'defaults, closure cells and class attributes of trees.*): every operation applied in every reachable '
                 'hidden state; (3) op(A+B) = op(A) (+) op(B) for every ordered pair from a treebank pool x %d '
-                'operations (four of them API histories: read all then transform last-to-first; two interleaved readers; a second reader on another compressed treebank half-way through; stage-wise processing with analysis and refused writes in between); (4) every operation under %d PYTHONHASHSEED values in real subprocesses; (5) binarization called twice with the same grammar and the same options dict object. '
+                'operations (four of them API histories: read all then transform last-to-first; two interleaved readers; a second reader on another compressed treebank half-way through; stage-wise processing with analysis and refused writes in between); (4) every operation under %d PYTHONHASHSEED values in real subprocesses; (5) binarization called twice with the same grammar and the same options dict object; (6) one volume probe outside the bound: bracketed treebanks of more than a million characters, A+B against A and B. '
                 'non-trivial = histories of length >= 2, concatenation pairs, determinism runs'
                 % (L, len(names), '' if tier == 'quick' else ' (length 3: all histories whose first two operations are among the 8 state-relevant ones)',
                    len(CONCAT_OPS), nseeds),
@@ -720,6 +721,47 @@ def plan(tier, seed):
                         'set-like files (.start .lex .oc .OC .gram .rcg) are compared as sorted lines',
                         'a terminal file keeps its name and content for the whole run (name reuse with new content is outside C18\'s quantifier)'],
     }
+
+
+def check_volume_concat():
+    """Volume probe (outside the exhaustive bound): a bracketed treebank B of more than a million characters (450 sentences
+    of 13 long words) and a small treebank A; converting A+B must give what converting A and B separately gives, for
+    the bracket and the discobracket reader (discobracket output shows words and absolute token positions)."""
+    out = []
+    wd = os.path.join(scratch(), 'c18v')
+    os.makedirs(wd, exist_ok=True)
+    sh = ((1, 2, 3), (4, (5, 6), 7), 8, (9, 10), 11, 12, 13)
+    def bank(lo, hi):
+        return [model.simple_mt(sh, sid=i + 1, labels='NP', words=['s%dw%d' % (i, j) + 'x' * 180 for j in range(13)]) for i in range(lo, hi)]
+    A, B = bank(0, 30), bank(30, 480)
+    for fmt, enc_fn in (('discobrackets', codecs.encode_discobrackets), ('brackets', codecs.encode_brackets)):
+        texts = {}
+        try:
+            for name, mts in (('A', A), ('B', B), ('AB', A + B)):
+                src, dest = os.path.join(wd, name + '.src'), os.path.join(wd, name + '.dest')
+                with open(src, 'w', encoding='utf-8') as f:
+                    f.write(enc_fn(mts))
+                cli = fresh_import()
+                st, so, se, exc = cli.run(['transform', src, dest, '--src-format', fmt, '--dest-format', 'discobrackets'])
+                if st != 0:
+                    raise RuntimeError('%s: exit status %r %s' % (name, st, exc))
+                with open(dest, encoding='utf-8') as f:
+                    texts[name] = f.read()
+                os.unlink(src)
+                os.unlink(dest)
+            if texts['AB'] != texts['A'] + texts['B']:
+                la, lb = texts['AB'].split('\n'), (texts['A'] + texts['B']).split('\n')
+                k = next((i for i, (a, b) in enumerate(zip(la, lb)) if a != b), min(len(la), len(lb)))
+                out.append({'kind': 'not-sentence-local', 'where': 'transform %s->discobrackets (volume probe)' % fmt,
+                            'case': {'volume': True},
+                            'detail': 'a file of %d characters: line %d of the result for A+B differs from result(A) (+) result(B): %r ... vs %r ...'
+                                      % (len(enc_fn(A + B)), k + 1, la[k][:80] if k < len(la) else None, lb[k][:80] if k < len(lb) else None),
+                            'what': 'processing the concatenation of two treebanks differs from processing them separately'})
+        except Exception as e:
+            out.append({'kind': 'exception', 'where': 'transform %s->discobrackets (volume probe)' % fmt, 'case': {'volume': True},
+                        'detail': '%s: %s' % (type(e).__name__, e), 'what': 'concatenation check raised'})
+    shutil.rmtree(wd, ignore_errors=True)
+    return out
 
 
 def check_api_repeat():
@@ -763,6 +805,8 @@ def _build_tree(mt):
 
 
 def check_case(case):
+    if 'volume' in case:
+        return check_volume_concat()
     if 'api_repeat' in case:
         return check_api_repeat()[0]
     if 'history' in case:
@@ -793,6 +837,14 @@ def run_chunk(chunk):
         res.outcome(('apirepeat', len(vs)))
         for v in vs:
             res.violation(v['kind'], v['where'], v['case'], v['detail'], v['what'])
+    elif kind == 'volume':
+        vs = check_volume_concat()
+        res.evals += 2
+        res.nontrivial += 2
+        res.outcome(('volume', len(vs)))
+        for v in vs:
+            res.violation(v['kind'], v['where'], v['case'], v['detail'], v['what'])
+        res.sample({'volume probe': 'bracketed treebanks of > 1 000 000 characters, A+B vs A, B'})
     elif kind == 'bfs':
         check_bfs(chunk['depth'], res)
         res.evals += res.transitions
